@@ -20,13 +20,13 @@ func init() { RegisterSub("C18", "leak", RunC18Leak) }
 // Marker rows: every value is distinctive (random, high entropy) so that finding 8 consecutive
 // bytes of it anywhere in the file means the value (or a statistic derived from it) was written in clear.
 type c18LeakRow struct {
-	S  string   `parquet:"s"`         // PLAIN byte array
-	D  string   `parquet:"d,dict"`    // dictionary page holds the values, PLAIN
-	DL string   `parquet:"dl,delta"`  // delta byte array: suffixes concatenated
-	I  int64    `parquet:"i,plain"`   // PLAIN int64, little-endian
-	J  int64    `parquet:"j,dict"`    // dictionary of int64
+	S  string   `parquet:"s"`          // PLAIN byte array
+	D  string   `parquet:"d,dict"`     // dictionary page holds the values, PLAIN
+	DL string   `parquet:"dl,delta"`   // delta byte array: suffixes concatenated
+	I  int64    `parquet:"i,plain"`    // PLAIN int64, little-endian
+	J  int64    `parquet:"j,dict"`     // dictionary of int64
 	O  *string  `parquet:"o,optional"` // optional: null pages and statistics with nulls
-	L  []int64  `parquet:"l,plain"`   // repeated
+	L  []int64  `parquet:"l,plain"`    // repeated
 	F  float64  `parquet:"f,plain"`
 	U  [16]byte `parquet:"u,uuid"` // fixed_len_byte_array(16)
 }
